@@ -327,10 +327,10 @@ def predicate_stream(ctx, cirq, mods, checks, n):
     # keep one per (family pair) first so every claimed rule is examined, then fill up
     seen, keep, rest = set(), [], []
     for r in found:
-        k = r[3]['signature']
+        k = (r[3]['signature'], str(r[3]['a'][1]), str(r[3]['b'][1]))      # per family pair AND wire layout
         (keep if k not in seen else rest).append(r)
         seen.add(k)
-    checks.extend(keep + rest[:max(0, 260 * n - len(keep))])
+    checks.extend(keep + rest[:max(0, 500 * n - len(keep))])
     # ---- has_stabilizer_effect: grid over families x special exponents x shifts (numpy oracle on the matrix) ----
     stab_fams = gates.FAST + ['ISwapPow', 'CCZPow', 'CCXPow', 'ZZPow', 'XXPow', 'YYPow', 'CYPow']
     grid = [E(f, e, s) for f in stab_fams for e in gates.SPECIAL_EXP + [0.3, 1.0000001] for s in (0.0, 0.5, -0.5, 0.25)]
